@@ -21,6 +21,10 @@ type c04PairCase struct {
 	A        []int  `json:"pieces_a"`
 	B        []int  `json:"pieces_b"`
 	Finish   string `json:"earlier_upload_finished_by"` // commit+close, commit, cancel, close
+	// Index, Thorough: position in the tier's case list. The cases run in order in one process, and the
+	// client may keep process-wide state between writers: a replay runs the cases before this one first.
+	Index    int  `json:"index_in_case_list"`
+	Thorough bool `json:"thorough_list"`
 }
 
 func c04PairRun(r *vcore.Run, c c04PairCase) {
@@ -111,7 +115,7 @@ func c04PairCases(thorough bool) []c04PairCase {
 							if !thorough && len(a)+len(b) > 4 {
 								continue
 							}
-							out = append(out, c04PairCase{Stack: st.name, MinChunk: mc, Hint: hint, A: a, B: b, Finish: fin})
+							out = append(out, c04PairCase{Stack: st.name, MinChunk: mc, Hint: hint, A: a, B: b, Finish: fin, Index: len(out), Thorough: thorough})
 						}
 					}
 				}
